@@ -355,6 +355,9 @@ def gen_chain(g, filters=0.0, roots=0.0, doc=None, small=False):
                                 return (not eq) if ne else eq
                             tq.sibs = True
                             if len(hit) <= 1:
+                                if r.random() < 0.3:
+                                    # the `$` path on the left (Coq's BRL): the same comparison
+                                    return '$' + jt + ('!=' if ne else '==') + '@' + it, ('rl', isp, 1 if ne else 0, jsp), tq
                                 return '@' + it + ('!=' if ne else '==') + '$' + jt, ('pq', isp, ne, jsp), tq
                         oc = r.randrange(2, 6)
                         fv = hit[0][1] if len(hit) == 1 and hit[0][0] == 'n' else None
@@ -365,6 +368,9 @@ def gen_chain(g, filters=0.0, roots=0.0, doc=None, small=False):
                                 return False
                             a = got[0][1]
                             return [a == fv, a != fv, a < fv, a <= fv, a > fv, a >= fv][oc]
+                        if r.random() < 0.3:
+                            mo = [0, 1, 4, 5, 2, 3][oc]
+                            return '$' + jt + ['==', '!=', '<', '<=', '>', '>='][mo] + '@' + it, ('rl', isp, mo, jsp), tr
                         return '@' + it + ['==', '!=', '<', '<=', '>', '>='][oc] + '$' + jt, ('cr', isp, oc, jsp), tr
                     if k0 < 0.1:
                         # a regular-expression test on a single-valued operand (patterns in the common subset of RE2 and Python, ASCII strings)
@@ -2064,8 +2070,8 @@ class C08(Prop):
             def tree_leaves(t):
                 return [t[1]] if t[0] == 'b' else tree_leaves(t[1]) if t[0] == 'p' else tree_leaves(t[1]) + tree_leaves(t[2])
             rooted = [j for j, st in enumerate(spec) for st1 in [st[1] if st[0] == 11 else st]
-                      if (st1[0] == 10 and any(b[0] in ('re', 'rn', 'cr', 'pq') for conj in st1[1] for b in conj))
-                      or (st1[0] == 15 and any(b[0] in ('re', 'rn', 'cr', 'pq') for b in tree_leaves(st1[1])))]
+                      if (st1[0] == 10 and any(b[0] in ('re', 'rn', 'cr', 'pq', 'rl') for conj in st1[1] for b in conj))
+                      or (st1[0] == 15 and any(b[0] in ('re', 'rn', 'cr', 'pq', 'rl') for b in tree_leaves(st1[1])))]
             lo = max(rooted) + 1 if rooted else 1
             if lo > len(spec) - 1:
                 continue
